@@ -80,6 +80,19 @@ def scenario(ctx, p):
         vols = list(per)
     lc = ctx.absstr("liquid_class") if p.get("symlc") else "LC"
     c.update(wells=wells, tips=tips, vols=vols, per=per, grid=30, site=2, arm=0, lc=lc)
+    if p["volmode"] == "scalar" and not p.get("symlc"):
+        # history: an earlier command for the same geometry in the same process - rejected half-way (a well that does not exist after a
+        # valid one; wells of two columns) or accepted; the command under test must not depend on it
+        earlier = ctx.choose("earlier", [None, "unknown-well", "two-columns", "accepted"])
+        c["earlier"] = earlier
+        if earlier is not None:
+            from robotools.evotools import commands
+            ew = {"unknown-well": ["A01", "Z09"], "two-columns": ["B01", "B02"], "accepted": ["B01", "D01"]}[earlier]
+            try:
+                getattr(commands, p["cmd"])(n_rows=lab.n_rows, n_columns=lab.n_columns, wells=ew, labware_position=(30, 2), volume=[1.0, 1.0],
+                                            liquid_class="LC", tips=[1, 2])
+            except (KeyError, ValueError):
+                pass
     getattr(wl, p["cmd"])(lab, wells, (30, 2), tips, vols, lc, arm=0)
     return wl
 
@@ -211,7 +224,7 @@ def judge_wash(ctx, c, name, args):
 def describe(ctx, p, outcome):
     c = ctx.ctx
     lab = c.get("lab")
-    s = f"  {p} wells={c.get('wells')} tips={c.get('tips')!r} volumes={c.get('vols')!r} grid/site/arm={c.get('grid')},{c.get('site')},{c.get('arm')}"
+    s = f"  {p} earlier command={c.get('earlier')}; wells={c.get('wells')} tips={c.get('tips')!r} volumes={c.get('vols')!r} grid/site/arm={c.get('grid')},{c.get('site')},{c.get('arm')}"
     if lab is not None:
         s += f"\n  pre={ {k: float(v) for k, v in c['pre'].items()} } post={lab.volumes.tolist()} min={lab.min_volume} max={lab.max_volume}"
     if "ints" in c:
